@@ -1608,7 +1608,8 @@ def _rolling_shift_or_diff_1d(
             if group_counts[key] >= window:
                 if want_shift:
                     out[i] = group_buffers[key, pos]
-                else:
+                elif not (is_null(val) or is_null(group_buffers[key, pos])):
+                    # (the integer null of datetime/timedelta values is not a number)
                     out[i] = val - group_buffers[key, pos]
             else:
                 group_counts[key] += 1
